@@ -1,37 +1,62 @@
 // Harness for C08: random mount trees (apps with / without their own ErrorHandler, sibling
-// prefixes that are string-prefixes of each other, nesting, mounts from groups) × request paths ×
-// an error raised somewhere in the chain. Every case is evaluated on several FRESH applications and
-// several times on each (Go re-randomises the iteration order of a map for every `range`, and the
-// bucket layout per map), and the observation is the SET of distinct outcomes seen.
+// prefixes that are string-prefixes of each other, nesting three deep, mounts from groups and from
+// groups under groups, prefixes in upper case, without leading slash, with parameter segments) ×
+// request paths × an error raised somewhere in the chain (root middleware, a sub-app's middleware,
+// an endpoint, the router's own 404/405) or before routing (the fasthttp server's ErrorHandler).
+// Every case is evaluated on several FRESH applications and several times on each (Go
+// re-randomises the iteration order of a map for every `range`, and the bucket layout per map),
+// and the observation is the SET of distinct outcomes seen.
 //
 // Line:  case id tree req mode err | outcomes
 //
 // tree : `<rootOwn>` then tokens joined by ','
 //
-//	A:<hexGroupPrefix|~>:<hexprefix>:<own>:<late> … E   sub := fiber.New(cfg); parent[.Group(gp)].Use(prefix, sub)
+//	A:<groups|~>:<hexprefix>:<own>:<late> … E   sub := fiber.New(cfg); parent[.Group(g1).Group(g2)…].Use(prefix, sub)
+//	groups = hex group prefixes joined by '.' (`_` = the empty prefix)
 //	own  = `-` (no ErrorHandler configured) | `<id>o` (handler answers) | `<id>f` (handler itself fails)
 //	late = 1: the app is mounted on its parent before its own children are mounted on it
 //
 // req  : `<m>:<hexpath>`   m = 0 GET, 2 POST
-// mode : `mw` (the outermost middleware returns the error itself) | `chain` (whatever the chain returns),
-//        optionally `+custom`: the root app uses a custom context (NewCtxFunc), i.e. customRequestHandler
+// mode : base, then flags
+//
+//	mw        the root's outermost middleware returns the error itself
+//	chain     whatever the chain returns (endpoint error, the router's 404/405, nothing)
+//	sub<k>    the middleware of the k-th mounted app (preorder) returns the error — if the request reaches it
+//	srv       no chain: the root's fasthttp server ErrorHandler (App.serverErrorHandler) is called directly
+//	          with a synthetic error (err = S:…) on a context carrying the request path
+//	net<k>    no chain: raw bytes over an in-memory connection served by the root's fasthttp server;
+//	          k = 0 header larger than the read buffer, 1 body larger than BodyLimit, 2 garbage,
+//	          3 unparsable Content-Length, 4 POST on a GETOnly server, 5 broken chunked body
+//	+custom   the root app uses a custom context (NewCtxFunc), i.e. customRequestHandler
+//	+cs       root Config.CaseSensitive   +strict  root Config.StrictRouting
+//	+subcs    every mounted app is created with CaseSensitive (the root's setting governs routing)
+//
 // err  : `F:<code>:<hexmsg>` fiber.NewError | `P:<hexmsg>` errors.New | `W:<code>:<hexmsg>` wrapped *fiber.Error
 //
-//	— the error returned by every `/e` route and by the middleware in mode mw
+//	— the error returned by every `/e` route and by the raising middleware;
+//	`S:<bits>:<hexmsg>` (mode srv): error whose chain holds, per bit, *fasthttp.ErrSmallBuffer, a timed-out
+//	*net.OpError, a net.Error, fasthttp.ErrBodyTooLarge, fasthttp.ErrGetOnly; Error() = msg
 //
 // outcomes: distinct evaluations joined by '|', each
 //
-//	chain=<E:code:hexmsg | P:hexmsg | none>;calls=<id>x<n>.…|-;status=<n>;body=<hex>
+//	chain=<E:code:hexmsg | P:hexmsg | none>;calls=<id>x<n>.…|-;status=<n>;body=<hex>          (chain modes)
+//	srv=<bits>:<hexmsg>;path=<hexpath>;calls=…;status=<n>;body=<hex>   |  srv=none;calls=…      (srv / net modes)
 //
 // `chain` is the error value as the outermost middleware saw it come back from c.Next() (or the one
 // it raised): `E` if errors.As finds a *fiber.Error (its Code), `P` otherwise, with err.Error().
 // It is the input of the error funnel; routing itself (C01) is not modelled by C08.
+// `srv` is what fasthttp handed to the server's ErrorHandler, recorded by a wrapper put around
+// `app.Server().ErrorHandler` (bits = the five tests of serverErrorHandler's switch, Error() text)
+// and `path` the path of the request as the broken request's context carries it.
 package main
 
 import (
+	"bufio"
+	"bytes"
 	"errors"
 	"fmt"
 	"io"
+	"net"
 	"sort"
 	"strconv"
 	"strings"
@@ -39,13 +64,15 @@ import (
 	"github.com/gofiber/fiber/v3"
 	"github.com/gofiber/fiber/v3/log"
 	"github.com/valyala/fasthttp"
+	"github.com/valyala/fasthttp/fasthttputil"
 
 	"verifharness/internal/gen"
 )
 
 const (
-	nApps = 30
-	nReq  = 2
+	nApps    = 24
+	nReq     = 2
+	nAppsNet = 3
 )
 
 type own struct {
@@ -55,8 +82,7 @@ type own struct {
 }
 
 type node struct {
-	gp       string
-	hasGP    bool
+	gps      []string
 	prefix   string
 	own      own
 	late     bool
@@ -64,10 +90,26 @@ type node struct {
 }
 
 type errSpec struct {
-	kind byte // F P W
+	kind byte // F P W S
 	code int
+	bits string // kind S: small, opTimeout, net, tooLarge, getOnly
 	msg  string
 }
+
+type timeoutErr struct{}
+
+func (timeoutErr) Error() string   { return "i/o timeout" }
+func (timeoutErr) Timeout() bool   { return true }
+func (timeoutErr) Temporary() bool { return true }
+
+// synthErr: Error() is msg; errors.Is / errors.As see the parts.
+type synthErr struct {
+	msg   string
+	parts []error
+}
+
+func (e *synthErr) Error() string   { return e.msg }
+func (e *synthErr) Unwrap() []error { return e.parts }
 
 func (e errSpec) make() error {
 	switch e.kind {
@@ -75,9 +117,97 @@ func (e errSpec) make() error {
 		return fiber.NewError(e.code, e.msg)
 	case 'W':
 		return fmt.Errorf("wrap: %w", fiber.NewError(e.code, e.msg))
+	case 'S':
+		se := &synthErr{msg: e.msg}
+		if e.bits[0] == '1' {
+			se.parts = append(se.parts, &fasthttp.ErrSmallBuffer{})
+		}
+		if e.bits[1] == '1' {
+			se.parts = append(se.parts, &net.OpError{Op: "read", Net: "tcp", Err: timeoutErr{}})
+		}
+		if e.bits[2] == '1' {
+			se.parts = append(se.parts, &net.DNSError{Err: "no such host", Name: "h"})
+		}
+		if e.bits[3] == '1' {
+			se.parts = append(se.parts, fasthttp.ErrBodyTooLarge)
+		}
+		if e.bits[4] == '1' {
+			se.parts = append(se.parts, fasthttp.ErrGetOnly)
+		}
+		return se
 	default:
 		return errors.New(e.msg)
 	}
+}
+
+// flags of a case (suffixes of the mode field)
+type flags struct {
+	custom, cs, strict, subcs bool
+}
+
+// what is evaluated: base mode + flags
+type mode struct {
+	base string // mw chain sub srv net
+	k    int    // sub: node index; net: scenario
+	flags
+}
+
+func (m mode) String() string {
+	s := m.base
+	if m.base == "sub" || m.base == "net" {
+		s += strconv.Itoa(m.k)
+	}
+	if m.custom {
+		s += "+custom"
+	}
+	if m.cs {
+		s += "+cs"
+	}
+	if m.strict {
+		s += "+strict"
+	}
+	if m.subcs {
+		s += "+subcs"
+	}
+	return s
+}
+
+func decMode(s string) mode {
+	f := strings.Split(s, "+")
+	var m mode
+	switch {
+	case f[0] == "mw" || f[0] == "chain" || f[0] == "srv":
+		m.base = f[0]
+	case strings.HasPrefix(f[0], "sub") || strings.HasPrefix(f[0], "net"):
+		k, err := strconv.Atoi(f[0][3:])
+		if err != nil || k < 0 || k > 64 {
+			panic("bad mode")
+		}
+		m.base, m.k = f[0][:3], k
+		if m.base == "net" && k > 5 {
+			panic("bad scenario")
+		}
+	default:
+		panic("bad mode")
+	}
+	for _, x := range f[1:] {
+		switch x {
+		case "custom":
+			m.custom = true
+		case "cs":
+			m.cs = true
+		case "strict":
+			m.strict = true
+		case "subcs":
+			m.subcs = true
+		default:
+			panic("bad flag")
+		}
+	}
+	if s != m.String() {
+		panic("mode not canonical")
+	}
+	return m
 }
 
 // ---------------------------------------------------------------- encoding
@@ -106,13 +236,42 @@ func decOwn(s string) own {
 	return own{true, id, s[len(s)-1] == 'f'}
 }
 
+func encGroups(gps []string) string {
+	if len(gps) == 0 {
+		return "~"
+	}
+	out := make([]string, len(gps))
+	for i, g := range gps {
+		if g == "" {
+			out[i] = "_"
+		} else {
+			out[i] = gen.Hex(g)
+		}
+	}
+	return strings.Join(out, ".")
+}
+
+func decGroups(s string) []string {
+	if s == "~" {
+		return nil
+	}
+	var out []string
+	for _, g := range strings.Split(s, ".") {
+		if g == "_" {
+			out = append(out, "")
+		} else {
+			if g == "" || g == "-" {
+				panic("bad group")
+			}
+			out = append(out, gen.UnHex(g))
+		}
+	}
+	return out
+}
+
 func encNodes(ns []*node, out *[]string) {
 	for _, n := range ns {
-		g := "~"
-		if n.hasGP {
-			g = gen.Hex(n.gp)
-		}
-		*out = append(*out, "A:"+g+":"+gen.Hex(n.prefix)+":"+encOwn(n.own)+":"+gen.B(n.late))
+		*out = append(*out, "A:"+encGroups(n.gps)+":"+gen.Hex(n.prefix)+":"+encOwn(n.own)+":"+gen.B(n.late))
 		encNodes(n.children, out)
 		*out = append(*out, "E")
 	}
@@ -139,10 +298,7 @@ func decNodes(tok []string, pos *int, depth int) []*node {
 		if len(f) != 5 || f[0] != "A" || (f[4] != "0" && f[4] != "1") {
 			panic("bad token")
 		}
-		n := &node{prefix: gen.UnHex(f[2]), own: decOwn(f[3]), late: f[4] == "1"}
-		if f[1] != "~" {
-			n.hasGP, n.gp = true, gen.UnHex(f[1])
-		}
+		n := &node{prefix: gen.UnHex(f[2]), own: decOwn(f[3]), late: f[4] == "1", gps: decGroups(f[1])}
 		n.children = decNodes(tok, pos, depth+1)
 		out = append(out, n)
 	}
@@ -159,8 +315,11 @@ func decTree(s string) (own, []*node) {
 }
 
 func encErr(e errSpec) string {
-	if e.kind == 'P' {
+	switch e.kind {
+	case 'P':
 		return "P:" + gen.Hex(e.msg)
+	case 'S':
+		return "S:" + e.bits + ":" + gen.Hex(e.msg)
 	}
 	return string(e.kind) + ":" + strconv.Itoa(e.code) + ":" + gen.Hex(e.msg)
 }
@@ -170,6 +329,11 @@ func decErr(s string) errSpec {
 	switch {
 	case len(f) == 2 && f[0] == "P":
 		return errSpec{kind: 'P', msg: gen.UnHex(f[1])}
+	case len(f) == 3 && f[0] == "S":
+		if len(f[1]) != 5 || strings.Trim(f[1], "01") != "" {
+			panic("bad bits")
+		}
+		return errSpec{kind: 'S', bits: f[1], msg: gen.UnHex(f[2])}
 	case len(f) == 3 && (f[0] == "F" || f[0] == "W"):
 		c, err := strconv.Atoi(f[1])
 		if err != nil || c < 100 || c > 599 {
@@ -188,13 +352,15 @@ type customCtx struct {
 }
 
 type run struct {
-	calls    map[int]int
-	chain    string
-	mwRaises bool
-	e        errSpec
+	calls   map[int]int
+	chain   string
+	srv     string // what the server's ErrorHandler was handed, "" = it was not called
+	srvPath string
+	md      mode
+	e       errSpec
 }
 
-func (r *run) reset() { r.calls = map[int]int{}; r.chain = "none" }
+func (r *run) reset() { r.calls = map[int]int{}; r.chain = "none"; r.srv = ""; r.srvPath = "" }
 
 func cfgFor(o own, r *run) fiber.Config {
 	if !o.set {
@@ -215,19 +381,30 @@ func addRoutes(a *fiber.App, r *run) {
 	a.Post("/p", func(c fiber.Ctx) error { return c.SendString("ok") })
 }
 
-func mountNodes(parent *fiber.App, ns []*node, r *run) {
+func mountNodes(parent *fiber.App, ns []*node, r *run, idx *int) {
 	for _, n := range ns {
-		sub := fiber.New(cfgFor(n.own, r))
+		cfg := cfgFor(n.own, r)
+		cfg.CaseSensitive = r.md.subcs
+		sub := fiber.New(cfg)
+		me := *idx
+		*idx++
+		// the mounted app's own middleware: one more position of the chain an error can come from
+		sub.Use(func(c fiber.Ctx) error {
+			if r.md.base == "sub" && r.md.k == me {
+				return r.e.make()
+			}
+			return c.Next()
+		})
 		addRoutes(sub, r)
 		var router fiber.Router = parent
-		if n.hasGP {
-			router = parent.Group(n.gp)
+		for _, g := range n.gps {
+			router = router.Group(g)
 		}
 		if n.late {
 			router.Use(n.prefix, sub)
-			mountNodes(sub, n.children, r)
+			mountNodes(sub, n.children, r, idx)
 		} else {
-			mountNodes(sub, n.children, r)
+			mountNodes(sub, n.children, r, idx)
 			router.Use(n.prefix, sub)
 		}
 	}
@@ -244,15 +421,37 @@ func describe(err error) string {
 	return "P:" + gen.Hex(err.Error())
 }
 
-func buildApp(rootOwn own, ns []*node, r *run, custom bool) fasthttp.RequestHandler {
-	root := fiber.New(cfgFor(rootOwn, r))
-	if custom {
+// describeSrv: the five tests of serverErrorHandler's switch, applied to the error fasthttp handed over
+func describeSrv(err error) string {
+	var (
+		opErr  *net.OpError
+		netErr net.Error
+	)
+	bits := gen.B(errors.As(err, new(*fasthttp.ErrSmallBuffer))) +
+		gen.B(errors.As(err, &opErr) && opErr.Timeout()) +
+		gen.B(errors.As(err, &netErr)) +
+		gen.B(errors.Is(err, fasthttp.ErrBodyTooLarge)) +
+		gen.B(errors.Is(err, fasthttp.ErrGetOnly))
+	return bits + ":" + gen.Hex(err.Error())
+}
+
+func buildApp(rootOwn own, ns []*node, r *run) *fiber.App {
+	cfg := cfgFor(rootOwn, r)
+	cfg.CaseSensitive = r.md.cs
+	cfg.StrictRouting = r.md.strict
+	if r.md.base == "net" {
+		cfg.ReadBufferSize = 512
+		cfg.BodyLimit = 8
+		cfg.GETOnly = r.md.k == 4
+	}
+	root := fiber.New(cfg)
+	if r.md.custom {
 		root.NewCtxFunc(func(app *fiber.App) fiber.CustomCtx {
 			return &customCtx{DefaultCtx: *fiber.NewDefaultCtx(app)}
 		})
 	}
 	root.Use(func(c fiber.Ctx) error {
-		if r.mwRaises {
+		if r.md.base == "mw" {
 			err := r.e.make()
 			r.chain = describe(err)
 			return err
@@ -262,26 +461,21 @@ func buildApp(rootOwn own, ns []*node, r *run, custom bool) fasthttp.RequestHand
 		return err
 	})
 	addRoutes(root, r)
-	mountNodes(root, ns, r)
-	return root.Handler()
+	idx := 0
+	mountNodes(root, ns, r, &idx)
+	root.Handler() // startup: nested appLists are merged, sub-app routes spliced in
+	// observe what fasthttp hands to fiber's serverErrorHandler, then let it run
+	srv := root.Server()
+	orig := srv.ErrorHandler
+	srv.ErrorHandler = func(fctx *fasthttp.RequestCtx, err error) {
+		r.srv = describeSrv(err)
+		r.srvPath = string(fctx.URI().PathOriginal())
+		orig(fctx, err)
+	}
+	return root
 }
 
-func evalOnce(h fasthttp.RequestHandler, r *run, m int, path string) (out string) {
-	r.reset()
-	defer func() {
-		if rec := recover(); rec != nil {
-			out = "panic"
-		}
-	}()
-	var fctx fasthttp.RequestCtx
-	var req fasthttp.Request
-	req.Header.SetMethod(fiber.DefaultMethods[m])
-	req.SetRequestURI(path)
-	fctx.Init(&req, nil, nil)
-	h(&fctx)
-	if r.chain == "none" {
-		return "chain=none;calls=-"
-	}
+func callsOf(r *run) string {
 	ids := make([]int, 0, len(r.calls))
 	for id := range r.calls {
 		ids = append(ids, id)
@@ -295,21 +489,106 @@ func evalOnce(h fasthttp.RequestHandler, r *run, m int, path string) (out string
 	if c == "" {
 		c = "-"
 	}
-	return "chain=" + r.chain + ";calls=" + c + ";status=" + strconv.Itoa(fctx.Response.StatusCode()) + ";body=" + gen.Hex(string(fctx.Response.Body()))
+	return c
 }
 
-func observe(rootOwn own, ns []*node, m int, path string, mw, custom bool, e errSpec) (obs string, ok bool) {
+func srvOutcome(r *run, status int, body []byte) string {
+	if r.srv == "" {
+		return "srv=none;calls=" + callsOf(r)
+	}
+	return "srv=" + r.srv + ";path=" + gen.Hex(r.srvPath) + ";calls=" + callsOf(r) + ";status=" + strconv.Itoa(status) + ";body=" + gen.Hex(string(body))
+}
+
+func evalOnce(root *fiber.App, r *run, m int, path string) (out string) {
+	r.reset()
+	defer func() {
+		if rec := recover(); rec != nil {
+			out = "panic"
+		}
+	}()
+	var fctx fasthttp.RequestCtx
+	var req fasthttp.Request
+	req.Header.SetMethod(fiber.DefaultMethods[m])
+	req.SetRequestURI(path)
+	fctx.Init(&req, nil, nil)
+	if r.md.base == "srv" {
+		root.Server().ErrorHandler(&fctx, r.e.make())
+		return srvOutcome(r, fctx.Response.StatusCode(), fctx.Response.Body())
+	}
+	root.Handler()(&fctx)
+	if r.chain == "none" {
+		return "chain=none;calls=" + callsOf(r)
+	}
+	return "chain=" + r.chain + ";calls=" + callsOf(r) + ";status=" + strconv.Itoa(fctx.Response.StatusCode()) + ";body=" + gen.Hex(string(fctx.Response.Body()))
+}
+
+func rawRequest(k int, path string) string {
+	switch k {
+	case 0:
+		return "GET " + path + " HTTP/1.1\r\nHost: x\r\nX-Long: " + strings.Repeat("a", 2000) + "\r\n\r\n"
+	case 1:
+		return "POST " + path + " HTTP/1.1\r\nHost: x\r\nContent-Length: 100\r\n\r\n" + strings.Repeat("b", 100)
+	case 2:
+		return "\x00\x01garbage\r\n\r\n"
+	case 3:
+		return "POST " + path + " HTTP/1.1\r\nHost: x\r\nContent-Length: abc\r\n\r\n"
+	case 4:
+		return "POST " + path + " HTTP/1.1\r\nHost: x\r\nContent-Length: 2\r\n\r\nhi"
+	default:
+		return "POST " + path + " HTTP/1.1\r\nHost: x\r\nTransfer-Encoding: chunked\r\n\r\nzz\r\n"
+	}
+}
+
+// evalNet: the raw request over an in-memory connection served by the root's fasthttp server
+func evalNet(root *fiber.App, r *run, path string) string {
+	r.reset()
+	pc := fasthttputil.NewPipeConns()
+	c1, c2 := pc.Conn1(), pc.Conn2()
+	done := make(chan bool)
+	go func() {
+		panicked := true
+		defer func() {
+			_ = recover()
+			_ = c2.Close() // whatever happened, the reader below must see the end of the stream
+			done <- panicked
+		}()
+		_ = root.Server().ServeConn(c2)
+		panicked = false
+	}()
+	go func() { _, _ = c1.Write([]byte(rawRequest(r.md.k, path))) }()
+	buf, _ := io.ReadAll(c1)
+	panicked := <-done
+	_ = c1.Close()
+	if panicked {
+		return "panic"
+	}
+	var resp fasthttp.Response
+	if err := resp.Read(bufio.NewReader(bytes.NewReader(buf))); err != nil {
+		return "srv=" + r.srv + ";unreadable-response"
+	}
+	return srvOutcome(r, resp.StatusCode(), resp.Body())
+}
+
+func observe(rootOwn own, ns []*node, m int, path string, md mode, e errSpec) (obs string, ok bool) {
 	defer func() {
 		if r := recover(); r != nil {
 			ok = false
 		}
 	}()
 	seen := map[string]bool{}
-	for a := 0; a < nApps; a++ {
-		r := &run{mwRaises: mw, e: e}
-		h := buildApp(rootOwn, ns, r, custom)
+	apps := nApps
+	if md.base == "net" {
+		apps = nAppsNet
+	}
+	for a := 0; a < apps; a++ {
+		r := &run{md: md, e: e}
+		root := buildApp(rootOwn, ns, r)
+		if md.base == "net" {
+			seen[evalNet(root, r, path)] = true
+			continue
+		}
 		for i := 0; i < nReq; i++ {
-			seen[evalOnce(h, r, m, path)] = true
+			seen[evalOnce(root, r, m, path)] = true
 		}
 	}
 	keys := make([]string, 0, len(seen))
@@ -320,32 +599,30 @@ func observe(rootOwn own, ns []*node, m int, path string, mw, custom bool, e err
 	return strings.Join(keys, "|"), true
 }
 
-func emit(w *gen.Writer, id string, rootOwn own, ns []*node, m int, path string, mw, custom bool, e errSpec) {
-	obs, ok := observe(rootOwn, ns, m, path, mw, custom, e)
+func emit(w *gen.Writer, id string, rootOwn own, ns []*node, m int, path string, md mode, e errSpec) {
+	obs, ok := observe(rootOwn, ns, m, path, md, e)
 	if !ok {
 		w.Count("build-panic")
 		return
 	}
-	mode := "chain"
-	if mw {
-		mode = "mw"
-	}
-	if custom {
-		mode += "+custom"
-	}
 	if strings.Contains(obs, "|") {
 		w.Count("order-dependent-outcome")
 	}
-	w.Case(id, encTree(rootOwn, ns), strconv.Itoa(m)+":"+gen.Hex(path), mode, encErr(e), obs)
+	w.Count("mode-" + md.base)
+	w.Case(id, encTree(rootOwn, ns), strconv.Itoa(m)+":"+gen.Hex(path), md.String(), encErr(e), obs)
 }
 
 // ---------------------------------------------------------------- generator
 
-var prefixes = []string{"/api", "/api", "/api-v2", "/api/v2", "/ap", "/a", "/", "/v1", "/api/", "/admin", "/adm",
-	"api", "/v1/api", "/a/b", "/apiv2", "", "/x"}
-var groupPrefixes = []string{"/g", "/api", "/", "/v1/", "g"}
+var prefixes = []string{"/api", "/api", "/api-v2", "/api/v2", "/ap", "/a", "/", "/", "/v1", "/api/", "/admin", "/adm",
+	"api", "/v1/api", "/a/b", "/apiv2", "", "/x",
+	"/API", "/Api-v2", "/Adm", "Api", "/aPi/V2", "v1", "a", "a", "A"}
+var paramPrefixes = []string{"/:tenant", "/:t", "/:t/api", "/api/:id", ":x", "/:a/:b", "/:T/Adm"}
+var groupPrefixes = []string{"/g", "/api", "/", "/v1/", "g", "/G", "", "/api/v2"}
+var paramValues = []string{"acme", "api", "x1", "Admin", "v2"}
 
-// mirror of mount's key computation, used ONLY to reject trees with two apps at the same key
+// mirror of mount's key computation and of the way the router tells mount points apart, used ONLY
+// to reject trees with two apps at the same mount point
 func ggp(prefix, path string) string {
 	if path == "" {
 		return prefix
@@ -359,8 +636,12 @@ func ggp(prefix, path string) string {
 func keys(parentKey string, ns []*node, out *[]string) {
 	for _, n := range ns {
 		p := n.prefix
-		if n.hasGP {
-			p = ggp(n.gp, n.prefix)
+		if len(n.gps) > 0 {
+			g := n.gps[0]
+			for _, x := range n.gps[1:] {
+				g = ggp(g, x)
+			}
+			p = ggp(g, n.prefix)
 		}
 		p = strings.TrimRight(p, "/")
 		if p == "" {
@@ -375,9 +656,20 @@ func keys(parentKey string, ns []*node, out *[]string) {
 	}
 }
 
+func normKey(k string, cs bool) string {
+	if k[0] != '/' {
+		k = "/" + k
+	}
+	if !cs {
+		k = strings.ToLower(k)
+	}
+	return k
+}
+
 type genCtx struct {
 	r      *gen.Rand
 	nextID int
+	params bool // this tree may have parameterised prefixes (known finding K1 lives there)
 }
 
 func (g *genCtx) own(p int) own {
@@ -398,8 +690,17 @@ func (g *genCtx) nodes(depth int, budget *int) []*node {
 	for i := 0; i < n && *budget > 0; i++ {
 		*budget--
 		nd := &node{prefix: gen.Pick(r, prefixes), own: g.own(6), late: r.Chance(1, 3)}
-		if r.Chance(1, 6) {
-			nd.hasGP, nd.gp = true, gen.Pick(r, groupPrefixes)
+		if g.params && r.Chance(1, 4) {
+			nd.prefix = gen.Pick(r, paramPrefixes)
+		}
+		if r.Chance(1, 5) {
+			nd.gps = []string{gen.Pick(r, groupPrefixes)}
+			if r.Chance(1, 3) {
+				nd.gps = append(nd.gps, gen.Pick(r, groupPrefixes))
+			}
+			if g.params && r.Chance(1, 6) {
+				nd.gps[0] = "/:grp"
+			}
 		}
 		if depth < 2 {
 			nd.children = g.nodes(depth+1, budget)
@@ -407,6 +708,33 @@ func (g *genCtx) nodes(depth int, budget *int) []*node {
 		out = append(out, nd)
 	}
 	return out
+}
+
+// a request path under (or next to) the mount point `key`: parameter segments get a value (or are
+// spelled out), letters may change case
+func instantiate(r *gen.Rand, key string) string {
+	segs := strings.Split(key, "/")
+	for i, s := range segs {
+		if len(s) > 1 && s[0] == ':' && !r.Chance(1, 6) {
+			segs[i] = gen.Pick(r, paramValues)
+		}
+	}
+	p := strings.Join(segs, "/")
+	if r.Chance(1, 4) {
+		bs := []byte(p)
+		for i, c := range bs {
+			if r.Chance(1, 3) {
+				switch {
+				case c >= 'a' && c <= 'z':
+					bs[i] = c - 32
+				case c >= 'A' && c <= 'Z':
+					bs[i] = c + 32
+				}
+			}
+		}
+		p = string(bs)
+	}
+	return p
 }
 
 func main() {
@@ -435,14 +763,15 @@ func main() {
 					panic("bad method")
 				}
 				path := gen.UnHex(q[1])
-				if path == "" || path[0] != '/' {
+				if path == "" || path[0] != '/' || strings.HasPrefix(path, "//") {
 					panic("bad path")
 				}
-				base := strings.TrimSuffix(f[3], "+custom")
-				if base != "mw" && base != "chain" {
-					panic("bad mode")
+				md := decMode(f[3])
+				e := decErr(f[4])
+				if (e.kind == 'S') != (md.base == "srv") {
+					panic("err kind does not fit the mode")
 				}
-				emit(w, f[0], rootOwn, ns, m, path, base == "mw", base != f[3], decErr(f[4]))
+				emit(w, f[0], rootOwn, ns, m, path, md, e)
 			}()
 		}
 		return
@@ -450,7 +779,12 @@ func main() {
 	root := gen.New(o.Seed)
 	for i := 0; i < o.N; i++ {
 		r := root.Fork(uint64(i))
-		g := &genCtx{r: r}
+		g := &genCtx{r: r, params: r.Chance(1, 5)}
+		md := mode{base: "chain"}
+		md.cs = r.Chance(1, 4)
+		md.strict = r.Chance(1, 5)
+		md.custom = r.Chance(1, 4)
+		md.subcs = r.Chance(1, 8)
 		var ns []*node
 		var ks []string
 		for try := 0; ; try++ {
@@ -462,10 +796,11 @@ func main() {
 			dup := false
 			seen := map[string]bool{}
 			for _, k := range ks {
-				if seen[k] {
+				nk := normKey(k, md.cs)
+				if seen[nk] {
 					dup = true
 				}
-				seen[k] = true
+				seen[nk] = true
 			}
 			if !dup {
 				break
@@ -480,7 +815,7 @@ func main() {
 		var path string
 		base := "/"
 		if len(ks) > 0 && !r.Chance(1, 8) {
-			base = gen.Pick(r, ks)
+			base = instantiate(r, gen.Pick(r, ks))
 		}
 		b := strings.TrimRight(base, "/")
 		switch r.Intn(12) {
@@ -510,8 +845,37 @@ func main() {
 		if path == "" || path[0] != '/' {
 			path = "/" + path
 		}
+		for strings.HasPrefix(path, "//") { // "//host/…" is a host to the URI parser, not a path
+			path = path[1:]
+		}
 		e := errSpec{kind: gen.Pick(r, []byte{'F', 'F', 'P', 'W'}), code: gen.Pick(r, []int{400, 401, 404, 418, 503, 500}),
 			msg: gen.Pick(r, []string{"boom", "nope", "bad thing"})}
-		emit(w, fmt.Sprintf("s%d.%d", o.Seed, i), rootOwn, ns, gen.Pick(r, []int{0, 0, 0, 0, 2}), path, r.Chance(1, 6), r.Chance(1, 4), e)
+		// where the error comes from
+		switch x := r.Intn(24); {
+		case x < 4:
+			md.base = "mw"
+		case x < 8 && len(ks) > 0:
+			md.base, md.k = "sub", r.Intn(len(ks))
+		case x < 11:
+			md.base = "srv"
+			bits := []byte("00000")
+			switch r.Intn(8) {
+			case 0, 1, 2, 3, 4:
+				bits[r.Intn(5)] = '1'
+			case 5:
+				for j := range bits {
+					if r.Bool() {
+						bits[j] = '1'
+					}
+				}
+			}
+			e = errSpec{kind: 'S', bits: string(bits), msg: gen.Pick(r, []string{"boom", "read timeout exceeded", "cannot parse request", "timeout", "body size exceeds the given limit"})}
+			if r.Chance(1, 3) {
+				path = "/"
+			}
+		case x == 11:
+			md.base, md.k = "net", r.Intn(6)
+		}
+		emit(w, fmt.Sprintf("s%d.%d", o.Seed, i), rootOwn, ns, gen.Pick(r, []int{0, 0, 0, 0, 2}), path, md, e)
 	}
 }
